@@ -101,7 +101,29 @@ func opParenExpr(p *Pkg, f *File, r *rand.Rand, id int) []edit {
 			continue
 		}
 		used[a] = true
-		eds = append(eds, edit{a, a, "("}, edit{b, b, ")"})
+		layers := 1 + r.Intn(3) // one to three layers: ((x)), (((x)))
+		eds = append(eds, edit{a, a, strings.Repeat("(", layers)}, edit{b, b, strings.Repeat(")", layers)})
+	}
+	return eds
+}
+
+// replace a standard import by the user package of the same name and API shape (corpus/stress/_lib)
+func opNamesakeImport(p *Pkg, f *File, r *rand.Rand, id int) []edit {
+	libs := map[string]bool{}
+	for _, l := range StressLibs() {
+		libs[l] = true
+	}
+	var eds []edit
+	for _, is := range f.AST.Imports {
+		path := strings.Trim(is.Path.Value, `"`)
+		base := path[strings.LastIndex(path, "/")+1:]
+		if is.Name != nil || !libs[base] || strings.HasPrefix(path, "stresslib/") || r.Intn(3) == 0 {
+			continue
+		}
+		if path != base && path != "path/filepath" {
+			continue
+		}
+		eds = append(eds, edit{off(is.Path.Pos()), off(is.Path.End()), `"stresslib/` + base + `"`})
 	}
 	return eds
 }
@@ -374,6 +396,7 @@ var mutOps = []mutOp{
 	{"add-type-params", opGeneric},
 	{"forward-multi-value", opForwardMulti},
 	{"shadow-builtin-local", opShadowLocal},
+	{"namesake-import", opNamesakeImport},
 }
 
 func Mutants(s1 []*Pkg, tier string, seed int64, stats map[string]int) []*Pkg {
